@@ -5,9 +5,8 @@ namespace GmQuic.Wake
 
 /-! ## 6. `ArcParameters::remote_ready` → `Parameters::poll_ready` (qbase/src/param.rs): `Vec<Waker>` (any number
 of waiters), drained by `wake_all` when the peer's parameters are received AND authenticated against the
-peer's initial source connection id.  `ArcParameters::on_conn_error` replaces the whole `Parameters` by `Err`:
-the pinned code (`fixed = false`) thereby DROPS the waker list without waking it;
-repo_patches/fix-C16-params-wake-on-error.diff (`fixed = true`) calls `wake_all` first. -/
+peer's initial source connection id.  `ArcParameters::on_conn_error` replaces the whole `Parameters` by `Err`;
+the waiters are woken through `impl Drop for Parameters { fn drop(&mut self) { self.wake_all() } }`. -/
 namespace Params
 
 structure State where
@@ -26,7 +25,7 @@ inductive Op where
   | dropfut (t : Tid)
   deriving DecidableEq, Repr
 
-def step (fixed : Bool) (s : State) : Op → State × Obs
+def step (s : State) : Op → State × Obs
   | .poll _ w =>
     if s.closed then (s, ⟨.err, []⟩)
     else if s.ready then (s, ⟨.ready 0, []⟩)
@@ -43,14 +42,14 @@ def step (fixed : Bool) (s : State) : Op → State × Obs
     else ({ s with scid := true }, ⟨.none, []⟩)
   | .connError =>
     if s.closed then (s, ⟨.none, []⟩)
-    else ({ s with closed := true, wakers := [] }, ⟨.none, if fixed then s.wakers else []⟩)
+    else ({ s with closed := true, wakers := [] }, ⟨.none, s.wakers⟩)   -- Drop for Parameters
   | .dropfut _ => (s, ⟨.none, []⟩)
 
-def proto (fixed : Bool) : WaitProto where
+def proto : WaitProto where
   σ := State
   Op := Op
   init := ⟨false, false, false, [], false⟩
-  step := step fixed
+  step := step
   pollBy := fun | .poll t w => some (t, w) | _ => none
   dropBy := fun | .dropfut t => some t | _ => none
   close := .connError
